@@ -57,6 +57,8 @@ def run(ctx):
     from . import C16, C13
     C16.o1_normals(_Ren(ctx, "d/"))
     C13.d3_elevation(_Ren(ctx, "c/"))
+    from . import parentelem
+    parentelem.run(ctx, "c/T6-parent-element-tables")
     ctx.trust("integral of x^a y^b over the unit triangle = a! b! / (a+b+2)!; n-point Gauss-Legendre is exact to degree 2n-1")
     ctx.assume("literal table entries carry ~15 significant digits: moments are compared with tolerance 2e-14")
 
@@ -474,6 +476,12 @@ def variants(repo):
     I = "optimism/Interpolants.py"
     Me = "optimism/Mesh.py"
     return [
+        Variant("bubble face 2 listed forwards", "optimism/Interpolants.py", sub("    kk = onp.array([i for i in reversed(range(degree + 1, nNodesFromBase, 2))] + [0])", "    kk = onp.array([nNodesFromBase - 1] + [i for i in range(degree + 1, nNodesFromBase - 1, 2)] + [0])"), "c/T6-parent-element-tables"),
+        Variant("bubble face 1 copied from plain element", "optimism/Interpolants.py", sub("    jj = onp.array([i for i in range(degree, 3*degree, 2)] + [nNodesFromBase - 1])", "    jj = onp.cumsum(onp.flip(ii)) + ii"), "c/T6-parent-element-tables"),
+        Variant("plain face 2 not reversed", "optimism/Interpolants.py", sub("    kk = onp.flip(jj) - ii", "    kk = jj - onp.flip(ii)"), "c/T6-parent-element-tables"),
+        Variant("vertex list misses the last node", "optimism/Interpolants.py", sub("    vertexPoints = np.array([0, degree, nPoints - 1], dtype=np.int32)", "    vertexPoints = np.array([0, degree, nPoints - 2], dtype=np.int32)"), "c/T6-parent-element-tables"),
+        Variant("nodal x/y formulas exchanged", "optimism/Interpolants.py", sub("            points[point, 0] = (1.0 + 2.0*lobattoPoints[k] - lobattoPoints[j] - lobattoPoints[i])/3.0", "            points[point, 0] = (1.0 + 2.0*lobattoPoints[j] - lobattoPoints[k] - lobattoPoints[i])/3.0"), "c/T6-parent-element-tables"),
+        Variant("alpha-rename bubble element", "optimism/Interpolants.py", alpha_rename("make_parent_element_2d_with_bubble"), None),
         Variant("drop 2pi", F, sub("    return 2*np.pi*Rs*vols", "    return np.pi*Rs*vols"), "b/T7-axisymmetric-weight"),
         Variant("radius from column 1", F, sub("    Rs = shapes@Xn[:,0]", "    Rs = shapes@Xn[:,1]"), "b/T7-axisymmetric-weight"),
         Variant("centroid radius", F, sub("    Rs = shapes@Xn[:,0]", "    Rs = np.mean(Xn[parentElement.vertexNodes,0])"), "b/T7-axisymmetric-weight"),
